@@ -271,3 +271,28 @@ func init() {
 }
 
 var _ = fmt.Sprintf
+
+func init() {
+	// runtime.Caller(skip): file and line of the active call site `skip` frames
+	// up the interpreter stack, from the SSA positions. skip=0 is the caller of
+	// runtime.Caller itself.
+	reg("runtime.Caller", func(ex *Exec, fr *frame, fn *ssa.Function, args []Value) Value {
+		skip := ex.concreteInt(args[0].(*Term), "runtime.Caller skip")
+		f := fr
+		for i := 0; i < skip && f != nil; i++ {
+			f = f.caller
+		}
+		if f == nil || f.cur == nil || f.fn.Prog == nil {
+			return Tuple{mkBV(64, 0), mkStr(""), i64(0), tFalse}
+		}
+		pos := f.fn.Prog.Fset.Position(f.cur.Pos())
+		if !pos.IsValid() {
+			return Tuple{mkBV(64, 0), mkStr("?"), i64(0), tTrue}
+		}
+		return Tuple{mkBV(64, 0), mkStr(pos.Filename), i64(int64(pos.Line)), tTrue}
+	})
+	reg("os.Getwd", func(ex *Exec, fr *frame, fn *ssa.Function, args []Value) Value {
+		ex.stub("os.Getwd: fixed working directory /wd")
+		return Tuple{mkStr("/wd"), Iface{}}
+	})
+}
